@@ -8,11 +8,11 @@ import sys
 
 VERIF = os.path.dirname(os.path.dirname(os.path.abspath(__file__)))
 for d in sorted(os.listdir("/tmp")):
-    m = re.fullmatch(r"seed-(C\d+)-out", d)
+    m = re.fullmatch(r"seed\d*-(C\d+)-out", d)
     if not m:
         continue
     prop = m.group(1)
-    for X in ("A", "B"):
+    for X in ("A", "B", "C", "D", "E", "F"):
         cf = os.path.join("/tmp", d, X + ".confirm.json")
         if not os.path.exists(cf):
             continue
